@@ -7,6 +7,9 @@ import (
 	"github.com/alephium/wormhole-fork/node/pkg/zzverif"
 )
 
+// C05-A: encode -> decode is the identity on every VAA with a non-empty payload, <= 255 signatures and a 32-bit
+// whole-second timestamp; the digest is preserved. Payload lengths: small ones plus boundary values derived from the
+// integer constants in Unmarshal's own SSA (a fixed-size buffer shows up as c-1, c, c+1, 2c).
 func VerifC05_RoundTrip() {
 	v := &VAA{
 		Version:          1,
@@ -17,17 +20,21 @@ func VerifC05_RoundTrip() {
 		ConsistencyLevel: zzverif.U8("cl"),
 		EmitterChain:     ChainID(zzverif.U16("ec")),
 		TargetChain:      ChainID(zzverif.U16("tc")),
-		Payload:          zzverif.Bytes("payload", zzverif.Len("plen", 1, 2, 3, 999, 1000, 1001, 2000)),
+		Payload:          zzverif.Bytes("payload", zzverif.LenFromConsts("plen", "Unmarshal", 1, 2, 3, 100, 999, 1000, 1001, 2000, 4096, 4097, 65535, 65536, 65537)),
 	}
 	copy(v.EmitterAddress[:], zzverif.Bytes("emitter", 32))
-	nsig := zzverif.Len("nsig", 0, 1, 2)
+	nsig := zzverif.Len("nsig", 0, 1, 2, 3, 19, 255)
 	for i := 0; i < nsig; i++ {
 		s := &Signature{Index: zzverif.U8("sigidx")}
 		copy(s.Signature[:], zzverif.Bytes("sig", 65))
 		v.Signatures = append(v.Signatures, s)
 	}
-	b, _ := v.Marshal()
-	w, err := Unmarshal(b)
+	b, merr := v.Marshal()
+	zzverif.Assert(merr == nil, "encodes")
+	zzverif.Assert(len(b) == 6+66*nsig+53+len(v.Payload), "encoded-length")
+	var w *VAA
+	var err error
+	zzverif.NoPanic(func() { w, err = Unmarshal(b) })
 	zzverif.Assert(err == nil, "decodes")
 	if err != nil {
 		return
@@ -37,17 +44,35 @@ func VerifC05_RoundTrip() {
 	zzverif.Assert(w.Sequence == v.Sequence && w.Nonce == v.Nonce && w.ConsistencyLevel == v.ConsistencyLevel &&
 		w.EmitterChain == v.EmitterChain && w.TargetChain == v.TargetChain && w.EmitterAddress == v.EmitterAddress &&
 		w.GuardianSetIndex == v.GuardianSetIndex && w.Version == v.Version, "fields")
-	zzverif.Assert(w.Timestamp.Unix() == v.Timestamp.Unix(), "timestamp")
+	zzverif.Assert(w.Timestamp.Equal(v.Timestamp) && w.Timestamp.Unix() == v.Timestamp.Unix(), "timestamp")
 	zzverif.Assert(len(w.Signatures) == len(v.Signatures), "nsig")
 	for i := range w.Signatures {
 		zzverif.Assert(*w.Signatures[i] == *v.Signatures[i], "sig")
 	}
 	zzverif.Assert(w.SigningMsg() == v.SigningMsg(), "digest")
+	// and the decoded value re-encodes to the very same bytes
+	b2, _ := w.Marshal()
+	zzverif.Assert(bytes.Equal(b, b2), "re-encode")
 	zzverif.Reach("end")
 }
 
+// C05-B: on an arbitrary byte string the decoder never panics; if it accepts, re-encoding gives back exactly the
+// input (no silent truncation, no over-read, nothing altered); if it rejects, no partially filled VAA is returned.
 func VerifC05_Decode() {
-	data := zzverif.Bytes("data", zzverif.Len("L", 0, 1, 56, 57, 58, 59, 60, 61, 125, 126, 127))
+	data := zzverif.Bytes("data", zzverif.LenRange("L", 0, 400))
+	verifC05Decode(data)
+}
+
+// same, at the boundary lengths derived from Unmarshal's constants (large inputs)
+func VerifC05_DecodeLong() {
+	L := zzverif.LenFromConsts("L", "Unmarshal", 1057, 1058, 2100, 66000)
+	data := zzverif.Bytes("data", L)
+	// keep the signature-count fork small: long inputs with 0..2 signatures
+	zzverif.Assume(len(data) < 6 || data[5] <= 2)
+	verifC05Decode(data)
+}
+
+func verifC05Decode(data []byte) {
 	var v *VAA
 	var err error
 	zzverif.NoPanic(func() { v, err = Unmarshal(data) })
@@ -57,6 +82,10 @@ func VerifC05_Decode() {
 		return
 	}
 	zzverif.Reach("accepted")
-	b, _ := v.Marshal()
+	zzverif.Assert(v != nil, "non-nil-on-success")
+	zzverif.Assert(len(v.Payload) > 0, "accepted-has-payload")
+	b, merr := v.Marshal()
+	zzverif.Assert(merr == nil, "accepted-encodes")
+	zzverif.Assert(len(b) == len(data), "canonical-length")
 	zzverif.Assert(bytes.Equal(b, data), "canonical")
 }
